@@ -135,8 +135,14 @@ inductive Stmt where
   | mssqlAlter (t : TRef) (col : String) (ty : String) (n : Option Bool)
   /-- MSSQL `ADD DEFAULT d FOR c` -/
   | mssqlAddDefault (t : TRef) (col : String) (d : String)
-  /-- MSSQL `declare @const_name ... exec('alter table t drop constraint ' + @const_name)` -/
-  | mssqlDropDefault (t : TRef) (col : String)
+  /-- MSSQL batch
+  `declare @const_name ... from sys.default_constraints where parent_object_id = object_id('<obj>')`
+  `and col_name(parent_object_id, parent_column_id) = '<col>'`
+  `exec('alter table <t> drop constraint ' + @const_name)`:
+  `obj` is the table the `object_id(...)` string literal denotes, `col` the string the `col_name()`
+  literal denotes (literal escaping undone: it must be the bare column name), `t` the table of the
+  inner `alter table` -/
+  | mssqlDropDefault (t : TRef) (obj : TRef) (col : String)
   /-- PG `ALTER COLUMN c ADD GENERATED ... AS IDENTITY (...)` -/
   | identityAdd (t : TRef) (col : String) (always : Bool) (start : Option Nat)
   /-- `ALTER COLUMN c DROP IDENTITY`, Oracle `MODIFY c DROP IDENTITY` -/
